@@ -158,8 +158,10 @@ impl<A, C: Clock, F: Filter, R: Rng, S: PtpInstanceStateMutex> Port<'_, InBmca, 
 
         match recommended_state {
             RecommendedState::M1(defaultds) | RecommendedState::M2(defaultds) => {
-                // a slave-only PTP port should never end up in the master state
-                debug_assert!(!default_ds.slave_only);
+                // Note: M1/M2 is also what the state decision algorithm yields on a
+                // slave-only instance that has no (more) qualified master. The port
+                // state for that case is handled in `set_recommended_port_state`
+                // (the port listens instead of becoming master).
 
                 current_ds.steps_removed = 0;
 
